@@ -128,68 +128,78 @@ def r1_population_evaluator(ctx):
 
 
 def r2_evaluators(ctx):
+    """K6 on every Evaluate implementation: a slice of 0..4 individuals (evaluated and unevaluated mixed, distinct
+    opaque solutions), the objective function an oracle that records each call.  Afterwards every individual of the
+    slice - same individuals, same order, solutions untouched - carries exactly f(its own solution), and the objective
+    function was called exactly once per individual (rayon's par_iter_mut / for_each are modelled as the sequential
+    visit of all elements; anything else that selects, skips, chunks or repeats elements is either modelled exactly
+    by the collection model or leaves the result undecided)."""
+    import itertools
+    from absint import Interp, Sym, Agg, TOP, some, NONE, std_oracle, chain
+    from collmodel import coll_oracle, install, Vec, load, It, HRef as _H
     F = ctx.facts
+    IND = "mahf::problems::individual::Individual"
     impls = [f for f in F.all_fns if f.impl_trait == "mahf::problems::evaluate::Evaluate" and f.name == "evaluate"]
     ctx.floor("C06.R2", "Evaluate implementations", len(impls), 2)
+    inl = lambda k: (k.startswith("mahf::problems::individual::") or k.startswith("<mahf::problems::individual::") or k.startswith("mahf::problems::evaluate::")
+                     or k.startswith("<mahf::problems::evaluate::") or k.startswith("mahf::population::") or "as mahf::population::" in k) and not k.endswith("::objective")
     for fn in impls:
-        sites = []
-        for g in F.with_closures(fn):
-            for bb, t in g.body.calls():
-                if t["f"].get("key") == "mahf::problems::individual::Individual::evaluate_with":
-                    sites.append((g, bb, t))
-        if not ctx.check(len(sites) == 1, "C06.R2", fn.key, "one-evaluate_with", "%d evaluate_with sites, expected 1" % len(sites), loc=fn.loc()):
-            continue
-        g, bb, t = sites[0]
-        recv = g.body.expr_of_op(t["args"][0])
-        leaf, cs, fields = origin(recv)
-        chain_names = list(cs)
-        root_expr = None
-        if g is not fn:
-            # element closure handed to for_each(...) over an iterator of `individuals`
-            ok_arg = leaf == ("arg", 2)
-            from kinds import closure_arg_source
-            src = closure_arg_source(F, g)
-            if src:
-                parent, rexpr, comb = src
-                l2, cs2, _ = origin(rexpr)
-                chain_names += [comb] + list(cs2)
-                leaf = l2 if ok_arg else ("?", None)
-        good = leaf == ("arg", 4) and all(c in ITER_OK for c in chain_names)
-        lp = enclosing_loop(g.body, bb)
-        once_per_element = (g is fn and lp is not None) or (g is not fn and lp is None)
-        ctx.check(good, "C06.R2", fn.key, "visits-every-individual", "individuals are reached through %s (only element-preserving iteration is allowed: a skipped or repeated individual breaks `everyone exactly once`)" % chain_names,
-                  detail=str(chain_names), loc=fn.loc(t.get("line")))
-        ctx.check(once_per_element, "C06.R2", fn.key, "once-per-element", "evaluate_with is not applied exactly once per visited element", loc=fn.loc(t.get("line")))
-        if g is fn and lp is not None:
-            # loop exits only at exhaustion
-            from kinds import loop_exits
-            bad = []
-            for (s_, d_) in loop_exits(g.body, lp[1]):
-                tt = g.body.term(s_)
-                okx = False
-                if tt["k"] == "switch":
-                    e = g.body.expr_of_op(tt["discr"])
-                    if e[0] == "discr" and strip(e[1])[0] == "call" and strip(e[1])[3]["f"].get("name") == "next":
-                        okx = True
-                if not okx:
-                    bad.append((s_, d_))
-            ctx.check(not bad, "C06.R2", fn.key, "loop-exits-at-exhaustion", "the evaluation loop can stop early (%s)" % bad, loc=fn.loc())
-        # the closure evaluates the objective exactly once
-        ce = strip(g.body.expr_of_op(t["args"][1]))
-        n_obj = -1
-        if ce[0] == "agg" and ce[1] == "closure":
-            clo = F.fn_opt(ce[2])
-            if clo:
-                n_obj = len([1 for _b, tt in clo.body.calls() if tt["f"].get("key") == "mahf::problems::evaluate::ObjectiveFunction::objective"])
-                inloop = any(enclosing_loop(clo.body, _b) for _b, tt in clo.body.calls() if tt["f"].get("key") == "mahf::problems::evaluate::ObjectiveFunction::objective")
-                if inloop:
-                    n_obj = 99
-        ctx.check(n_obj == 1, "C06.R2", fn.key, "one-objective-call-per-individual", "the objective function is called %s times per individual" % n_obj, loc=fn.loc())
-    # evaluate_with itself calls its function exactly once
-    ew = F.fn("mahf::problems::individual::Individual::evaluate_with")
-    calls = [(b, t) for b, t in ew.body.calls() if t["f"].get("name") in ("call_mut", "call_once", "call")]
-    ctx.check(len(calls) == 1 and enclosing_loop(ew.body, calls[0][0]) is None and on_every_ok_path(ew.body, calls[0][0]), "C06.R2", ew.key, "calls-objective-fn-once",
-              "evaluate_with does not call its objective function exactly once", loc=ew.loc())
+        bad = []
+        n = 0
+        for size in range(0, 5):
+            for pattern in itertools.product((False, True), repeat=size):
+                if size == 4 and pattern not in ((False,) * 4, (True, False, True, False)):
+                    continue
+                n += 1
+                pop = tuple(Agg("adt", IND, "Individual", [Sym("s%d" % i), some(Sym("old%d" % i)) if pattern[i] else NONE]) for i in range(size))
+
+                def oracle(interp, env, f, args, t, bb, path):
+                    k = f.get("key", "")
+                    nm = f.get("name")
+                    if k == "mahf::problems::evaluate::ObjectiveFunction::objective" or (nm == "objective" and "ObjectiveFunction" in k):
+                        sol = load(interp, env, args[1])
+                        tag = getattr(sol, "tag", repr(sol))
+                        interp.mstate["calls"] = interp.mstate.get("calls", ()) + (tag,)
+                        return Sym("f(%s)" % tag)
+                    # rayon: the parallel visit of all elements is modelled as the sequential one
+                    if nm and nm.startswith("par_") and nm not in ("par_iter_mut", "par_iter") and "rayon" in k:
+                        f2 = dict(f)
+                        f2["name"] = nm[4:]
+                        f2["key"] = "[T]::" + nm[4:]
+                        f2["self_ty"] = "[T]"
+                        return coll_oracle(interp, env, f2, args, t, bb, path)
+                    if nm in ("par_iter_mut", "par_iter", "into_par_iter") and "rayon" in k:
+                        v = load(interp, env, args[0])
+                        if isinstance(v, Vec):
+                            from collmodel import view_get
+                            return It([_H(v.vid, (v.lo or 0) + i) for i in range(len(view_get(interp, v)))])
+                        return TOP
+                    if nm == "for_each" and "rayon" in k:
+                        f2 = dict(f)
+                        f2["key"] = "core::iter::traits::iterator::Iterator::for_each"
+                        return coll_oracle(interp, env, f2, args, t, bb, path)
+                    return TOP
+                it = install(Interp(fn.body, chain(oracle, coll_oracle, std_oracle), [Sym("self"), Sym("problem"), Sym("state"), Vec("inds", True)], facts=F, inline=inl, max_visits=12))
+                it.init_state = {"heap": {"inds": pop}, "next_vec": 0}
+                for p in it.run():
+                    where = ([("evaluated" if e else "unevaluated") for e in pattern],)
+                    if p.end != "return":
+                        bad.append(where + ("does not return (%s)" % p.end,))
+                        continue
+                    after = p.mstate.get("heap", {}).get("inds", ())
+                    calls = list(p.mstate.get("calls", ()))
+                    sols = [getattr(x.fields[0], "tag", "?") if isinstance(x, Agg) and x.name == IND else "?" for x in after]
+                    if sols != ["s%d" % i for i in range(size)]:
+                        bad.append(where + ("leaves the individuals %s (same individuals, same order, same solutions are required)" % sols,))
+                        continue
+                    objs = [(getattr(x.fields[1].fields[0], "tag", "?") if isinstance(x.fields[1], Agg) and x.fields[1].variant == "Some" else None) for x in after]
+                    want = ["f(s%d)" % i for i in range(size)]
+                    if objs != want:
+                        bad.append(where + ("leaves objective values %s, expected %s" % (objs, want),))
+                    elif sorted(calls) != sorted("s%d" % i for i in range(size)):
+                        bad.append(where + ("calls the objective function on %s: exactly once per individual is required" % calls,))
+        ctx.check(not bad, "C06.R2", fn.key, "everyone-evaluated-exactly-once", "slice of individuals %s: evaluate %s" % (bad[0] if bad else ("", "")), detail="%d slices" % n, loc=fn.loc())
+    ctx.count("evaluator_slices", n * len(impls))
 
 
 def r3_every_evaluate_is_counted(ctx):
@@ -244,7 +254,19 @@ def r4_identifiers(ctx):
         if tt["f"].get("key") == "mahf::state::require::StateReq::require":
             ctx.check(propagated(req.body, b) or result_disposition(req.body, b) == "passed", "C06.R4", req.key, "require-propagated:%s" % tt["f"]["gargs"][-1][-20:], "a failed requirement is not reported", loc=req.loc(tt.get("line")))
     opt = F.fn("mahf::configuration::Configuration::optimize")
+    import k4 as _k4
     ins = [tt["f"].get("gargs") for b, tt in opt.body.calls() if tt["f"].get("key") == "mahf::state::registry::StateRegistry::insert"]
+    # helpers of State that insert on the caller's behalf (insert_evaluator, insert_evaluator_as::<I>): substitute their type parameters
+    for b, tt in opt.body.calls():
+        ck = tt["f"].get("key", "")
+        cf = F.fn_opt(ck)
+        if cf is not None and ck.startswith("mahf::state::State::"):
+            names = _k4.type_params(cf.generics)
+            ga = tt["f"].get("gargs") or []
+            mapping = dict(zip(names, ga)) if len(names) == len(ga) else {}
+            for b2, t2 in cf.body.calls():
+                if t2["f"].get("key") == "mahf::state::registry::StateRegistry::insert":
+                    ins.append([_k4.subst(x, mapping) for x in (t2["f"].get("gargs") or [])])
     ctx.check(any(g and g[0].startswith("mahf::state::common::Evaluator<P, ") and g[0].endswith("::Global>") for g in ins), "C06.R4", opt.key, "registers-global-evaluator", "optimize() does not insert Evaluator<P, Global>: %s" % ins, loc=opt.loc())
     ev = F.fn("mahf::configuration::ConfigurationBuilder::evaluate")
     ks = [tt["f"].get("key") for b, tt in ev.body.calls()]
